@@ -123,12 +123,22 @@ def classes(rnd, count, products=False):
 
 
 class LogProvider:
+    """the terms of a child as a rule of a specification would hand them out: the *same* Counter object on every request for a
+    size (a rule's terms cache) - whoever receives it must not modify it"""
+
     def __init__(self, cls, log, who):
         self.cls, self.log, self.who = cls, log, who
+        self.cache = {}
 
     def __call__(self, n):
         self.log.append((self.who, n))
-        return true_terms(self.cls, n)
+        if n not in self.cache:
+            t = true_terms(self.cls, n)
+            self.cache[n] = (t, dict(t))
+        return self.cache[n][0]
+
+    def modified(self):
+        return [(n, snap, dict(t)) for n, (t, snap) in sorted(self.cache.items()) if dict(t) != snap]
 
 
 def evaluate(name, rule, N):
@@ -162,6 +172,10 @@ def evaluate(name, rule, N):
             reads.append(sorted(set(log), key=str))  # what was requested for the size at which counting failed
         out["reads"] = reads
     out["truth"] = [specrun.st(true_terms(rule.comb_class, n)) for n in range(N + 1)]
+    for prov in rule.subterms:
+        for n, before, after in prov.modified():
+            out["mutated"] = (f"the terms of child {prov.who} ({prov.cls!r}) for size {n}, handed to the rule by their provider, were "
+                              f"modified in place: {specrun.st(before)} -> {specrun.st(after)}")
     # skeleton: class 0 = the rule, classes 1.. = its children as tables of their true terms
     try:
         idx = {}
